@@ -2,6 +2,7 @@
 //! The crate depends on /repo by path; nothing here is a model of vm-memory's code.
 #![allow(dead_code, unused_imports, unused_variables, unused_mut, clippy::all)]
 #![cfg_attr(kani, feature(allocator_api))]
+extern crate alloc;
 
 #[cfg(kani)]
 #[kani::proof]
@@ -19,6 +20,14 @@ mod cffi;
 mod regn;
 #[cfg(kani)]
 mod mock;
+#[cfg(kani)]
+mod c02;
+#[cfg(kani)]
+mod stdstubs;
+#[cfg(kani)]
+mod c10;
+#[cfg(kani)]
+mod c12;
 #[cfg(kani)]
 mod c03;
 #[cfg(kani)]
